@@ -64,7 +64,7 @@ def gen_case(rng, i, tier):
         Y.append([hx(v, sc) for v in col])
     build = [["obs", N, Y]]
     wk = "none"
-    if i % 3 == 1:
+    if i % 3 == 1 or i % 6 == 0:    # i % 6 == 0: weights together with several right-hand sides
         wk = "pos"
         build.append(["weights", [hx(round_to(rng.uniform(0.5, 2.0), sc), sc) for _ in range(N)]])
     case = {"scalar": sc, "ctor": ctor, "model": spec, "faults": None, "build": build,
